@@ -27,7 +27,7 @@ type Op struct {
 	Kind    string   `json:"op"` // load delete delete-where compact add-vectors del-vectors vacuum create-branch merge revert
 	Branch  string   `json:"branch,omitempty"`
 	Vals    []string `json:"vals,omitempty"`    // load: ZSON text of the values
-	Objs    []int    `json:"objs,omitempty"`    // delete/compact/vectors: indices into the branch's objects sorted by id
+	Objs    []int    `json:"objs,omitempty"`    // delete/compact/vectors: indices into the branch's objects ordered by content
 	Pred    string   `json:"pred,omitempty"`    // delete-where
 	Vectors bool     `json:"vectors,omitempty"` // compact: also write vectors
 	From    string   `json:"from,omitempty"`    // create-branch: source branch
@@ -73,6 +73,8 @@ type Model struct {
 	Commits  map[ksuid.KSUID]*MCommit
 	Order    []ksuid.KSUID // commits in creation order
 	Branches map[string]ksuid.KSUID
+
+	contentKeys map[ksuid.KSUID]string // pickObjs' order
 }
 
 func NewModel(spec PoolSpec, id ksuid.KSUID) *Model {
@@ -292,8 +294,28 @@ func multisetDiff(want, got []gen.Rec) string {
 var msg = api.CommitMessage{Author: "verif"}
 
 // pickObjs maps indices to object ids of the branch's current state.
+// pickObjs resolves object indices against the branch's live objects ordered
+// by content (then id).  Object ids are random within one second, so an order
+// by id would differ between two lakes that are given the same history (C19's
+// twins) and between two runs.
 func (m *Model) pickObjs(branch string, idx []int) []ksuid.KSUID {
 	ids := SortedIDs(m.State(m.Branches[branch]))
+	if m.contentKeys == nil {
+		m.contentKeys = map[ksuid.KSUID]string{}
+	}
+	key := func(id ksuid.KSUID) string {
+		if k, ok := m.contentKeys[id]; ok {
+			return k
+		}
+		var sb strings.Builder
+		for _, v := range m.Objects[id] {
+			sb.WriteString(zson.FormatValue(v))
+			sb.WriteByte('\n')
+		}
+		m.contentKeys[id] = sb.String()
+		return sb.String()
+	}
+	sort.SliceStable(ids, func(i, j int) bool { return key(ids[i]) < key(ids[j]) })
 	var out []ksuid.KSUID
 	for _, i := range idx {
 		if len(ids) == 0 {
